@@ -22,6 +22,7 @@ import json
 import logging
 import signal
 
+from ..impl import c10_round as rm
 from ..translate import c10 as tr
 
 PROPERTY = "C10"
@@ -37,19 +38,22 @@ TRUSTED_BASE = [
     "translator harness/translate/c10.py (element classification table; AST check of slide()'s dispatch)",
     "correspondence harness harness/props/C10.py (monkeypatched slide / _flow_head_changed / eval_expression / "
     "_compute_event_matching_score recorders) + Lean driver Drive/C10.lean",
-    "the step budget B(program) = 8*(total elements + 10) slide calls / internal events per process_events call is empirical (T2 is not proved)",
+    "T2 is proved on the RoundMachine abstraction; that B bounds the REAL round rests on the per-run replay of recorded rounds (Drive/C10.lean `round`) "
+    "and on the translator's RProg (wait kinds, late-death analysis, catchAt) in harness/impl/c10_round.py; a 40*(elements+10) per-call backstop remains",
 ]
 ASSUMPTIONS = [
-    "whole-loop termination (T2 run_terminates) is decided by the step-budget oracle on the real interpreter, not by a theorem",
+    "whole-round termination (T2 run_terminates) is a theorem about the token abstraction RoundMachine, not about CoreVM; programs the verified "
+    "checker roundRanked rejects are outside the hypothesis (no termination verdict for them)",
     "ErrContain does not model the recursive child/action clean-up of _abort_flow/_finish_flow (C06) nor forked-head recursion",
     "the sliding graph over-approximates: dynamic `send $ref.X()` of non-action references is treated as sliding",
     "programs in which an activated flow completes a full pass on internally generated events only (e.g. `await` of a flow that "
     "finishes immediately) are outside the hypothesis 'loops contain a waiting statement' and are not generated",
 ]
 
-BUDGET_FACTOR = 8
+BUDGET_FACTOR = 40  # empirical BACKSTOP per process_events call; the verdict comes from the proved per-round bound B
 SLIDE_SAMPLE_CAP = 30
 MATCH_SAMPLE_CAP = 12
+ROUND_REPLAY_CAP = 10
 
 MATCH_KINDS = ("match-cmp", "match-regex", "match-expr", "match-and-first", "match-and-second", "match-or-first", "match-or-second",
                "match-when-sibling", "match-child", "match-child-await", "match-grandchild")
@@ -186,12 +190,38 @@ def quick_case(body, name, extra_peer):
     return {"kind": "prog", "src": "\n".join(src) + "\n", "events": script, "meta": meta}
 
 
+CASCADES = [
+    (["await kid"], ['$e = "t" + 3'], "await-child-raises"),
+    (["await kid"], ["abort"], "await-child-aborts"),
+    (["start kid", "match Q()"], ["abort"], "start-child-aborts"),
+    (["$x = 1", "start kid", "match Q()"], ["$y = 1", '$e = $nope + 1'], "start-child-raises-late"),
+    (["start kid and kid2", "match Q()"], ["abort"], "start-group-child-aborts"),
+]
+
+
+def cascade_case(body, kid, name, extra_peer):
+    """an activated flow that fails before it is started BECAUSE a flow it starts fails (pattern failure of the FlowStarted match)"""
+    src = ["@active", "flow casc"] + ["  " + l for l in body] + ["", "flow kid"] + ["  " + l for l in kid] + ["", "flow kid2", "  match Q2()", ""]
+    if extra_peer:
+        src += ["@active", "flow peer", "  match Q()", "  $z = 1", ""]
+    script = [{"type": "Boot"}, {"type": "Q"}, {"type": "Next"}]
+    for n, e in enumerate(script):
+        src += ["@active", f'@loop("obs{n}")', f"flow obs_{e['type']}", f"  match {e['type']}()", f"  send Seen{e['type']}()", ""]
+    src += ["flow main", "  match Never()"]
+    meta = {"mode": "active", "kind": "none", "phase": "none", "waits_before": 0, "inject_at": -1, "nested": None, "expect_error": False,
+            "quick": "cascade:" + name, "cascade": name}
+    return {"kind": "prog", "src": "\n".join(src) + "\n", "events": script, "meta": meta}
+
+
 def gen_cases(rng, tier):
     n_prog = 36 if tier == "quick" else 420
     cases = [{"kind": "lib"}]
     for body, name in QUICK_BODIES:
         cases.append(quick_case(body, name, False))
         cases.append(quick_case(body, name, True))
+    for body, kid, name in CASCADES:
+        cases.append(cascade_case(body, kid, name, False))
+        cases.append(cascade_case(body, kid, name, True))
     kinds = list(ERR_STMT)
     for p in range(n_prog):
         n = rng.randrange(3, 8)
@@ -231,6 +261,8 @@ class _R:
     orig = {}
     cur = None
     st = None
+    round = None
+    round_ctx = None
 
 
 def worker_init():
@@ -251,7 +283,12 @@ def worker_init():
         "score": sm._compute_event_matching_score,
         "cands": sm._get_all_head_candidates,
         "rtc": rtm.run_to_completion,
+        "push": sm._push_internal_event,
+        "push_left": sm._push_left_internal_event,
+        "abort": sm._abort_flow,
+        "finish": sm._finish_flow,
     }
+    rm.init()
     install()
 
 
@@ -270,12 +307,19 @@ def install():
                "hstatus": head.status.name, "moves": [], "evals": [[]], "exc": None, "n": len(flow_config.elements)}
         prev = _R.cur
         _R.cur = (head.uid, rec)
+        rnd = _R.round
+        if rnd is not None:
+            rnd.slide_begin(flow_state, head)
+        nh = []
         try:
-            return O["slide"](state, flow_state, flow_config, head)
+            nh = O["slide"](state, flow_state, flow_config, head)
+            return nh
         except Exception as e:  # noqa
             rec["exc"] = type(e).__name__
             raise
         finally:
+            if rnd is not None and _R.round is rnd:
+                rnd.slide_end(flow_state, head, nh)
             _R.cur = prev
             rec["final"] = head.position
             rec["fstatus"] = head.status.name
@@ -299,6 +343,8 @@ def install():
                 if head.position != last:
                     rec["moves"].append(head.position)
                     rec["evals"].append([])
+        if _R.round is not None:
+            _R.round.moved(head)
         return O["head_changed"](state, flow_state, head)
 
     def eval_w(expr, context):
@@ -323,7 +369,45 @@ def install():
                 raise Budget("internal events")
             if event.name == "ColangError":
                 st["colang_errors"] += 1
-        return O["pie"](state, event)
+        rnd = _R.round
+        if rnd is None:
+            return O["pie"](state, event)
+        rnd.pop_begin(state, event)
+        r = O["pie"](state, event)
+        rnd.pop_end(state)
+        return r
+
+    def push_w(state, event):
+        if _R.round is not None:
+            _R.round.push(event)
+        return O["push"](state, event)
+
+    def push_left_w(state, event):
+        if _R.round is not None:
+            _R.round.push(event)
+        return O["push_left"](state, event)
+
+    def abort_w(state, flow_state, matching_scores, deactivate_flow=False):
+        rnd = _R.round
+        if rnd is None:
+            return O["abort"](state, flow_state, matching_scores, deactivate_flow)
+        rnd.end_begin(flow_state)
+        try:
+            return O["abort"](state, flow_state, matching_scores, deactivate_flow)
+        finally:
+            if _R.round is rnd:
+                rnd.end_end(flow_state)
+
+    def finish_w(state, flow_state, matching_scores, deactivate_flow=False):
+        rnd = _R.round
+        if rnd is None:
+            return O["finish"](state, flow_state, matching_scores, deactivate_flow)
+        rnd.end_begin(flow_state)
+        try:
+            return O["finish"](state, flow_state, matching_scores, deactivate_flow)
+        finally:
+            if _R.round is rnd:
+                rnd.end_end(flow_state)
 
     def cands_w(state, event):
         r = O["cands"](state, event)
@@ -353,6 +437,8 @@ def install():
         except Exception as e:  # noqa
             if st is not None and st.get("scan") is not None:
                 st["scan"]["scores"].append([flow_state.uid, head.uid, "err"])
+            if _R.round is not None:
+                _R.round.last_err_head = head.uid
             raise
         if st is not None and st.get("scan") is not None:
             st["scan"]["scores"].append([flow_state.uid, head.uid, "pos" if s > 0.0 else ("neg" if s < 0.0 else "zero")])
@@ -360,12 +446,27 @@ def install():
 
     def rtc_w(state, ev):
         st = _R.st
+        rc = _R.round_ctx
+        rnd = None
+        if st is not None and rc is not None:
+            rnd = rm.Round(rc["P"], rc["idx"], rc["pot"], sm, state, ev)
+            if rnd.bound is not None:
+                rnd.limit, rnd.exc = min(rnd.bound, 200000), Budget
+            _R.round = rnd
         try:
             return O["rtc"](state, ev)
         except Exception as e:  # noqa
             if st is not None:
                 st["rtc_exc"].append(type(e).__name__)
             raise
+        finally:
+            _R.round = None
+            if rnd is not None:
+                try:
+                    res = rnd.finish()
+                except Exception as e:  # noqa
+                    res = {"tokens": [], "steps": [], "orphans": [f"recorder: {type(e).__name__}: {e}"], "bound": None, "n": 0}
+                st["rounds"].append(res)
 
     sm.slide = slide_w
     sm._flow_head_changed = head_changed_w
@@ -374,6 +475,10 @@ def install():
     sm._get_all_head_candidates = cands_w
     sm._compute_event_matching_score = score_w
     rtm.run_to_completion = rtc_w
+    sm._push_internal_event = push_w
+    sm._push_left_internal_event = push_left_w
+    sm._abort_flow = abort_w
+    sm._finish_flow = finish_w
 
 
 def _vt_alarm(signum, frame):
@@ -383,7 +488,26 @@ def _vt_alarm(signum, frame):
 def run_impl(case):
     if case["kind"] == "lib":
         res, skipped = tr.library_flows()
-        return {"flows": {k: v["prog"] for k, v in res.items()}, "files": {k: v["file"] for k, v in res.items()}, "skipped": skipped,
+        lib_round = "n/a"
+        try:
+            rm.init()
+            flows, seen = [], set()
+            for f in tr.library_files():
+                try:
+                    fl = tr.parse_source(open(f, encoding="utf-8").read(), f)
+                except Exception:  # noqa
+                    continue
+                for x in fl:
+                    if x.name not in seen:
+                        seen.add(x.name)
+                        flows.append(x)
+            flows += tr.parse_source("flow main\n  match NeverEvent()\n")
+            st0 = tr.compile_flows(flows)
+            P, _idx, uns = rm.round_prog(st0.flow_configs, lambda fc: res[fc.id]["prog"])
+            lib_round = "unsupported-dynamic-start" if uns else ("ranked" if rm.Potential(P).ok else "outside-hypothesis")
+        except Exception as e:  # noqa
+            lib_round = "error:" + type(e).__name__
+        return {"lib_round": lib_round, "flows": {k: v["prog"] for k, v in res.items()}, "files": {k: v["file"] for k, v in res.items()}, "skipped": skipped,
                 "py_acyclic": {k: py_acyclic(v["prog"]) for k, v in res.items()},
                 "py_ranked": {k: py_ranked(v["prog"])[0] for k, v in res.items()}, "dynamic_send": sum(v["dynamic_send"] for v in res.values())}
     from nemoguardrails.colang.v2_x.runtime.flows import InternalEvents
@@ -402,13 +526,20 @@ def run_impl(case):
     try:
         st0 = tr.compile_flows(tr.parse_source(case["src"]))  # a second, private copy: expansion mutates the configs in place
         progs = {fid: tr.classify_flow(fc, InternalEvents.ALL)[0] for fid, fc in st0.flow_configs.items()}
+        P, idx, unsupported = rm.round_prog(st0.flow_configs, lambda fc: progs[fc.id])
+        pot = rm.Potential(P)
+        _R.round_ctx = {"P": P, "idx": idx, "pot": pot}
+        obs["rprog"] = [{k: v for k, v in fl.items() if k != "_id"} for fl in P]
+        obs["round_ranked"] = pot.ok
+        obs["round_unsupported"] = unsupported
     except Exception as e:  # noqa
         obs["classify_error"] = f"{type(e).__name__}: {str(e)[:200]}"
         return obs
+    obs["rounds"], obs["rounds_full"], obs["round_orphans"] = [], [], []
     signal.signal(signal.SIGVTALRM, _vt_alarm)
     for ev in case["events"]:
         st = {"slides": 0, "moves": 0, "ievents": 0, "colang_errors": 0, "rtc_exc": [], "samples": [], "scans": [], "scan": None,
-              "over_bound": [], "max_iter_ratio": 0.0, "budget": 10 ** 9}
+              "over_bound": [], "max_iter_ratio": 0.0, "budget": 10 ** 9, "rounds": []}
         st["budget"] = BUDGET_FACTOR * (sum(len(p) for p in progs.values()) + 10)
         _R.st = st
         call = {"event": ev["type"], "out": [], "pe_exc": None, "budget_hit": None}
@@ -432,8 +563,15 @@ def run_impl(case):
         obs["samples"] += st["samples"][:max(0, room)]
         obs["scans"] += [s for s in st["scans"] if s["scores"]][: max(0, MATCH_SAMPLE_CAP - len(obs["scans"]))]
         obs["over_bound"] += st["over_bound"]
+        for r in st["rounds"]:
+            obs["rounds"].append([r["n"], r["bound"]])
+            obs["round_orphans"] += r["orphans"]
+            if len(obs["rounds_full"]) < ROUND_REPLAY_CAP and r["n"] > 0:
+                obs["rounds_full"].append({"tokens": r["tokens"], "steps": r["steps"], "bound": r["bound"]})
         if call["budget_hit"] or call["pe_exc"] or state is None:
             break
+    _R.round_ctx = None
+    obs["round_orphans"] = obs["round_orphans"][:3]
     obs["flows"] = progs or {}
     obs["py_acyclic"] = {k: py_acyclic(v) for k, v in (progs or {}).items()}
     obs["py_ranked"] = {k: py_ranked(v)[0] for k, v in (progs or {}).items()}
@@ -616,6 +754,8 @@ def model_requests(case, obs):
         # pinned tree (never computed), the model's as-is verdict does not depend on them
         full = cands + [[f, h, "zero"] for f, h in s["cands"][len(cands):]]
         reqs.append({"m": "C10.match", "cands": full, "heads": s.get("heads", [])})
+    if "rprog" in obs:
+        reqs.append({"m": "C10.round", "prog": obs["rprog"], "rounds": [{"tokens": r["tokens"], "steps": r["steps"]} for r in obs["rounds_full"]]})
     return reqs
 
 
@@ -691,6 +831,19 @@ def compare(case, obs, mouts):
             return f"matching phase of {s['event']}: no candidate raised but the pre-fix model disagrees"
         if raised and m["asis"] is not None:
             return f"matching phase of {s['event']}: a candidate raised but the pre-fix model does not abandon the phase"
+    if "rprog" in obs:
+        m = mouts[i]
+        i += 1
+        if m["ranked"] != obs["round_ranked"]:
+            return f"round machine: Lean roundRanked={m['ranked']} but the independent potential search says {obs['round_ranked']}"
+        if obs["round_ranked"] and not obs["round_unsupported"]:
+            if obs["round_orphans"]:
+                return "round machine: the recorder could not map the real round onto machine steps: " + obs["round_orphans"][0]
+            for r, mr in zip(obs["rounds_full"], m["rounds"]):
+                if r["bound"] is not None and int(mr["bound"]) != r["bound"]:
+                    return f"round machine: B(program, state) Lean {mr['bound']} vs Python {r['bound']}"
+                if isinstance(mr["replay"], str):
+                    return "round machine: a recorded real step is not a step of the abstraction: " + mr["replay"][:300]
     return None
 
 
@@ -721,14 +874,18 @@ def oracle(case, obs):
     if "classify_error" in obs:
         return "element classification failed: " + obs["classify_error"]
     meta = case["meta"]
+    in_hyp = bool(obs.get("round_ranked")) and not obs.get("round_unsupported")
     for c in obs["calls"]:
         if c["budget_hit"]:
-            return f"processing of event {c['event']} did not terminate within the step budget ({c['budget_hit']}: slides={c['slides']} internal events={c['ievents']}, budget {c['budget']})"
+            if not in_hyp:
+                return None  # the verified checker rejects the program (a loop / start cycle without a wait for an external event): outside the hypothesis
+            return f"processing of event {c['event']} did not terminate within the step budget ({c['budget_hit']}: slides={c['slides']} internal events={c['ievents']})"
+    if in_hyp:
+        for n, b in obs["rounds"]:
+            if b is not None and n > b:
+                return f"a processing round took {n} steps > proved bound B(program, state) = {b}"
         if c["pe_exc"]:
             return f"exception escaped process_events while processing {c['event']}: {c['pe_exc']}"
-    for c in obs["calls"]:
-        if c["budget"] is not None and (c["slides"] > c["budget"] or c["ievents"] > c["budget"]):
-            return f"processing of event {c['event']} exceeded B(program)={c['budget']}: slides={c['slides']} internal events={c['ievents']}"
     for f, it, n in obs["over_bound"]:
         if obs["py_acyclic"].get(f) or obs["py_ranked"].get(f):
             return f"slide on acyclic flow {f} made {it} iterations > |elements|+1 = {n + 1}"
@@ -753,6 +910,8 @@ def signature(case, obs, msg):
         # the error is raised by _compute_event_matching_score (outside the try/except of _advance_head_front)
         if any(c["event"] == "M" and c["rtc_exc"] for c in obs.get("calls", [])):
             return "error-raised-while-matching"
+    if "did not terminate within the step budget" in msg and meta.get("cascade"):
+        return "activated-flow-fails-while-starting-by-pattern-failure"
     if "did not terminate within the step budget" in msg and meta["mode"] in ("active", "launcher") and meta["phase"] == "slide" \
             and meta["waits_before"] == 0 and meta["kind"] != "none":
         return "activated-flow-fails-before-first-wait"
@@ -775,7 +934,7 @@ def tags(case, obs):
         cyc = sorted(k for k, v in obs["py_acyclic"].items() if not v)
         unr = sorted(k for k, v in obs["py_ranked"].items() if not v and not obs["py_acyclic"][k])
         return ["kind:lib", f"lib-flows:{n}", f"lib-coarse-cyclic:{len(cyc)}", f"lib-hypothesis-not-established:{len(unr)}"] + \
-            [f"lib-unranked-flow:{k}" for k in unr[:8]] + [f"lib-skipped-files:{len(obs['skipped'])}"]
+            [f"lib-unranked-flow:{k}" for k in unr[:8]] + [f"lib-skipped-files:{len(obs['skipped'])}", "lib-as-one-program-round:" + obs.get("lib_round", "n/a")]
     meta = case["meta"]
     t = ["kind:prog", "mode:" + meta["mode"], "err:" + meta["kind"], "phase:" + meta["phase"], "waits-before:" + str(min(meta["waits_before"], 3))]
     if meta.get("nested"):
@@ -797,9 +956,14 @@ def tags(case, obs):
             t.append("has-cyclic-flow")
         mx = max([c["slides"] / c["budget"] for c in obs["calls"] if c["budget"]] or [0])
         t.append("budget-use:<" + ("1%" if mx < 0.01 else "5%" if mx < 0.05 else "25%" if mx < 0.25 else "100%"))
-        v = obs_variant(obs)
-        if v:
-            t.append("matching-variant:" + v)
+        if "round_ranked" in obs:
+            t.append("round:" + ("unsupported" if obs["round_unsupported"] else "ranked" if obs["round_ranked"] else "outside-hypothesis"))
+            if obs["round_ranked"] and obs["rounds"]:
+                use = max((n / b) for n, b in obs["rounds"] if b)
+                t.append("B-use:<" + ("5%" if use < 0.05 else "25%" if use < 0.25 else "50%" if use < 0.5 else "100%" if use <= 1 else "OVER"))
+                mb = max(b for n, b in obs["rounds"] if b)
+                t.append("B-size:<" + ("1e3" if mb < 1e3 else "1e4" if mb < 1e4 else "1e6" if mb < 1e6 else "huge"))
+                t.append("rounds-replayed:" + str(min(len(obs["rounds_full"]), 10)))
     return t
 
 
